@@ -123,12 +123,13 @@ def direct(case, obs):
             fails.append((sig("premature-failure"), "r%s (%s) reported as '%s' with timeout %d s" % (ids[k], b, c[2], T)))
     # (4) tasks are served once, in order; after a fault the next task is served by a fresh worker
     order = [(w[0], j, i) for w in obs["workers"] for j, i in enumerate(w[1])]
-    served_ids = [i for (_, _, i) in order]
+    never = set(i for i in ids if G.beh_of(case, i) == "dies_before")    # their worker died before taking them
+    served_ids = [i for (_, _, i) in order if i not in never]
     if obs["outcome"] == "deadlock":
         pass
-    elif served_ids != ids[:len(cmps)]:
+    elif served_ids != [i for i in ids[:len(cmps)] if i not in never]:
         fails.append((sig("task-not-served-once"), "tasks taken by the workers %s, recordings %s" % (served_ids, ids[:n])))
-    else:
+    elif not never:
         for k in range(len(order) - 1):
             if G.fatal_dedicated(G.beh_of(case, ids[k]), T) and (order[k + 1][1] != 0 or order[k + 1][0] <= order[k][0]):
                 fails.append((sig("no-fresh-worker-after-fault"),
